@@ -1462,7 +1462,7 @@ def load_corpus():
 
 def run(run):
     import multiprocessing
-    ncases = 1500 if run.thorough else 120
+    ncases = 1500 if run.thorough else 100
     cases = [c for c in load_corpus() if "task" in c]
     run.count("corpus", len(cases))
     while len(cases) < ncases:
@@ -1506,7 +1506,7 @@ def run(run):
             run.mismatch(c, dict(rows=len(m), first_diff=common.limited(diff, 1500)),
                          dict(rows=len(i)))
     t_model = time.time() - run.t0
-    chunk_check(run, 600 if run.thorough else 120)
+    chunk_check(run, 600 if run.thorough else 100)
     uint32_check(run)
     tdms_check(run)
     run.notes.append("seconds since start: tasks+oracle %.0f, model %.0f, "
